@@ -280,11 +280,15 @@ Qed.
 
 (* staking has released what the entries completing now record (no shortfall) *)
 Definition sc_inv (now : Z) (i : sc_in) : Prop :=
-  amounts_nonneg (sc_queue i) /\ sc_due now (sc_queue i) <= sc_mod_bond i + sc_released i.
+  amounts_nonneg (sc_queue i) /\ sc_due now (sc_queue i) <= sc_mod_bond i + sc_released i /\
+  sc_blocked i = [].      (* the handler rejects blocked recipients: no stored entry has one *)
+
+Lemma no_blocked now q : existsb (fun e => sc_pays now e && existsb (Z.eqb (ShareClass.u_id e)) []) q = false.
+Proof. induction q as [|e tl IH]; [reflexivity|]. cbn [existsb]. rewrite andb_false_r. exact IH. Qed.
 
 Theorem sc_end_total now i : sc_inv now i -> exists q, sc_end now i = Ok q.
 Proof.
-  intros (Hn & Hd). unfold sc_end.
+  intros (Hn & Hd & Hb). unfold sc_end. rewrite Hb, no_blocked.
   destruct (gc_total now (sc_queue i) Hn (fun _ _ => 0)
              (fun d => if d =? ShareClass.BOND then sc_mod_bond i + sc_released i else 0)) as ([[q ub] mb] & E).
   - rewrite Z.eqb_refl. exact Hd.
@@ -294,6 +298,7 @@ Theorem sc_end_halts now i : amounts_nonneg (sc_queue i) -> 0 <= sc_mod_bond i +
   sc_mod_bond i + sc_released i < sc_due now (sc_queue i) -> exists e, sc_end now i = Err e.
 Proof.
   intros Hn H0 Hd. unfold sc_end.
+  destruct (existsb _ (sc_queue i)); [eexists; reflexivity|].
   destruct (gc_short now (sc_queue i) Hn (fun _ _ => 0)
              (fun d => if d =? ShareClass.BOND then sc_mod_bond i + sc_released i else 0)) as (e & E).
   - rewrite Z.eqb_refl. exact H0.
@@ -369,7 +374,7 @@ Proof. repeat split; vm_compute; reflexivity. Qed.
       returns "insufficient funds": FinalizeBlock fails.  Reproduced on the real application
       (harness corpus "sc-slash"); not repaired (known finding). *)
 Definition w_sc_in : sc_in :=
-  {| sc_queue := [ShareClass.mkUnb 0 1 10000000000 99999]; sc_mod_bond := 0; sc_released := 95000 |}.
+  {| sc_queue := [ShareClass.mkUnb 0 1 10000000000 99999]; sc_mod_bond := 0; sc_released := 95000; sc_blocked := [] |}.
 Theorem sc_slashed_unbonding_halts : exists e, sc_end 12000000000 w_sc_in = Err e.
 Proof. eexists. vm_compute. reflexivity. Qed.
 (* the same shortfall arises without any slash during the unbonding when the recorded amount
@@ -377,8 +382,17 @@ Proof. eexists. vm_compute. reflexivity. Qed.
    released 91.  Repaired by notes/patches/C01-shareclass-record-released-amount.patch: the
    amount x/staking reports is recorded, so the entry owes exactly what is released. *)
 Theorem sc_requested_amount_halts :
-  exists e, sc_end 12000000000 {| sc_queue := [ShareClass.mkUnb 6 1 10000000000 92]; sc_mod_bond := 0; sc_released := 91 |} = Err e.
+  exists e, sc_end 12000000000 {| sc_queue := [ShareClass.mkUnb 6 1 10000000000 92]; sc_mod_bond := 0; sc_released := 91; sc_blocked := [] |} = Err e.
 Proof. eexists. vm_compute. reflexivity. Qed.
+(* 3. the recipient named in MsgNonVotingUndelegate is a blocked address (the fee collector):
+      funds are there, the bank refuses the payout, the end blocker returns the error at every
+      block from the completion on.  Reproduced on the real application (corpus
+      "sc-blocked-recipient"); repaired by notes/patches/C01-shareclass-reject-blocked-recipient.patch
+      (the handler rejects such recipients, [sc_blocked] stays empty). *)
+Theorem sc_blocked_recipient_halts :
+  sc_end 12000000000 {| sc_queue := [ShareClass.mkUnb 3 900 10000000000 50000]; sc_mod_bond := 0; sc_released := 50000; sc_blocked := [3] |}
+  = Err E_BLOCKED.
+Proof. vm_compute. reflexivity. Qed.
 
 (* ------------------------------------------------------------------ non-vacuity *)
 Definition ex_li : Gauge.istate :=
@@ -407,4 +421,4 @@ Definition ex_block : block_in :=
      b_bonded := 1000000;
      b_sc := {| sc_queue := [ShareClass.mkUnb 0 1 (1800000059 * 1000000000) 500;
                              ShareClass.mkUnb 1 1 (1800000060 * 1000000000 + 5) 300];
-                sc_mod_bond := 0; sc_released := 500 |} |}.
+                sc_mod_bond := 0; sc_released := 500; sc_blocked := [] |} |}.
